@@ -96,13 +96,36 @@ ARRAY_FIXED = ["[nil]", "[[]]", "[1,\"a\"]", "[[1,2],[3]]", "[-1,5]", "[0,1e10]"
                "[{true},{false}]", "[1,[2,[3,[4]]]]", "[1e38*10, sqrt -1]"]
 
 
+# well-formed argument arrays of the operators with long / nested formats, and every single-element deviation from them
+EXEMPLARS = [['"Land_Test"', "[0,0,0]", "[]", "0", '"NONE"'], ["[0,0,0]", "GRP", '""', "0.5", '"PRIVATE"'], ['"m2"', "[0,0,0]"], ['"m1"', "OBJ"],
+             ['"iso_v"', "1"], ['"iso_v"', "1", "true"], ["0", "0", "0"], ["[0,0,0]", "[1,1,1]"], ['"%1 %2"', "1", '"b"'], ["[1,2]", "[3,4]"],
+             ['"_a"', '["_b", 1]', '["_c", 2, [0]]', '["_d", 3, [0], 1]'], ["OBJ", '"iso_v"'], ['[["a",1],["b",2]]'], ["0", "2"], ["[0,0,0]", '["All"]', "10"]]
+
+
+def near_valid(reps, full):
+    out = []
+    for ex in EXEMPLARS:
+        out.append("[" + ",".join(ex) + "]")
+        for i in range(len(ex)):
+            out.append("[" + ",".join(ex[:i] + ex[i + 1:]) + "]")             # one element missing
+            for r in (reps if full else reps[:3]) + ["nil"]:
+                if r != ex[i]:
+                    out.append("[" + ",".join(ex[:i] + [r] + ex[i + 1:]) + "]")   # one element of another type / value
+        out.append("[" + ",".join(ex + ["0"]) + "]")                           # one element too many
+    seen, res = set(), []
+    for a in out:
+        if a not in seen:
+            seen.add(a); res.append(a)
+    return res
+
+
 def pools(tier):
     q = tier == "quick"
     p = dict(OTHER)
     p["SCALAR"] = SCALAR_Q if q else SCALAR
     p["STRING"] = STRING_Q if q else STRING
     p["CODE"] = CODE_Q if q else CODE
-    p["ARRAY"] = ARRAY_FIXED + arrays(REPS_Q if q else REPS, 2 if q else 3)
+    p["ARRAY"] = ARRAY_FIXED + arrays(REPS_Q if q else REPS, 2 if q else 3) + near_valid(REPS_Q if q else REPS, not q)
     anyp = []
     for t in ("SCALAR", "STRING", "CODE", "BOOL", "OBJECT", "GROUP", "CONFIG", "NAMESPACE", "SIDE", "TEXT", "HASHMAP", "SCRIPT", "IF",
               "WHILE", "FOR", "SWITCH", "WITH", "EXCEPTION", "LOCATION", "DISPLAY", "CONTROL"):
